@@ -254,8 +254,9 @@ def _safe_binop(op, a, b):
 
 class Opts:
     """Normalisation options for one comparison."""
-    def __init__(self, plus_commutes=False):
+    def __init__(self, plus_commutes=False, ordered=False):
         self.plus_commutes = plus_commutes
+        self.ordered = ordered      # keep operand order of every operator (reflected-operator methods dispatch on it)
 
 
 def _collect_like(items, opts):
@@ -332,6 +333,8 @@ def mk_bin(op, a, b, opts=None):
                 items.extend(x[1])
             else:
                 items.append(x)
+        if opts is not None and opts.ordered:
+            return (op, (a, b))
         commut = op in AC_OPS or (opts is not None and opts.plus_commutes)
         if op == '+' and not commut:
             ks = [kind_of(x) for x in items]
